@@ -246,6 +246,8 @@ def _lazy_slots(ctx) -> Dict[str, str]:
             for n in walk_local(f.node):
                 if isinstance(n, ast.If):
                     t = n.test
+                    if isinstance(t, ast.BoolOp) and isinstance(t.op, ast.Or):
+                        t = t.values[0]
                     if (
                         isinstance(t, ast.Compare)
                         and len(t.ops) == 1
@@ -293,8 +295,8 @@ def r6_1(ctx):
               "__hash__ does not return self._hash or the canonical hash((fields))")
 
 
-def r6_2(ctx):
-    ctx.rule("R6.2", "derived slots (_hash, _style_definition, _ansi) on every __new__ construction route are recomputed from the new object's own field values in canonical order, reset to None (lazy), or copied from an object all of whose dependency fields are copied unchanged")
+def r6_2(ctx, rule_id="R6.2", only=None):
+    ctx.rule(rule_id, "derived slots (_hash, _style_definition, _ansi) on every __new__ construction route are recomputed from the new object's own field values in canonical order, reset to None (lazy), or copied from an object all of whose dependency fields are copied unchanged")
     try:
         hf, _ = _canonical_hash(ctx)
     except HashDisagreement:
@@ -306,6 +308,8 @@ def r6_2(ctx):
         deps["_style_definition"] = _field_deps_of_method(ctx, "__str__", {"_style_definition"})
     if "_ansi" in (_style(ctx).slots or []):
         deps["_ansi"] = _field_deps_of_method(ctx, "_make_ansi_codes", {"_ansi"})
+    if only is not None:
+        deps = {k: v for k, v in deps.items() if k in only}
     ctx.note(f"derived-slot dependencies computed from code: { {k: sorted(v) for k, v in deps.items()} }; lazy slots: {lazy}")
     routes = _routes(ctx)
     ctx.floor(len(routes), 4, "__new__ construction routes in class Style")
@@ -373,6 +377,8 @@ def r6_2(ctx):
     # __init__ : derived caches start empty, hash from own fields (canonical by definition)
     init = _method(ctx, "__init__")
     for slot in ("_style_definition", "_ansi"):
+        if only is not None and slot not in only:
+            continue
         for n in walk_local(init.node):
             if isinstance(n, (ast.Assign, ast.AnnAssign)):
                 tg = n.targets if isinstance(n, ast.Assign) else [n.target]
